@@ -5,10 +5,22 @@
 #[macro_use]
 pub mod vsrc;
 
+pub mod c27;
 pub mod c28;
 
 #[cfg(not(kani))]
 pub const REPLAY: &[(&str, fn(&mut vsrc::ReplaySrc))] = &[
+    ("c27_gap", |s| c27::gap(s)),
+    ("c27_step_none_header", |s| c27::step::<_, 0, false, 0>(s)),
+    ("c27_step_none_block", |s| c27::step::<_, 0, true, 0>(s)),
+    ("c27_step_headers1_header", |s| c27::step::<_, 1, false, 1>(s)),
+    ("c27_step_headers2_header", |s| c27::step::<_, 1, false, 2>(s)),
+    ("c27_step_headers1_block", |s| c27::step::<_, 1, true, 1>(s)),
+    ("c27_step_headers2_block", |s| c27::step::<_, 1, true, 2>(s)),
+    ("c27_step_blocks1_header", |s| c27::step::<_, 2, false, 1>(s)),
+    ("c27_step_blocks2_header", |s| c27::step::<_, 2, false, 2>(s)),
+    ("c27_step_blocks1_block", |s| c27::step::<_, 2, true, 1>(s)),
+    ("c27_step_blocks2_block", |s| c27::step::<_, 2, true, 2>(s)),
     ("c28_new", |s| c28::new_contract(s)),
     ("c28_commit", |s| c28::commit_step(s)),
     ("c28_observe", |s| c28::observe_step(s)),
@@ -18,3 +30,8 @@ pub const REPLAY: &[(&str, fn(&mut vsrc::ReplaySrc))] = &[
 /// Stub target for `std::rt::thread_cleanup` (kani-compiler cannot translate
 /// the real one: it calls `catch_unwind`).
 pub fn noop() {}
+
+/// Stub target for `BlockHeaderV1::recalculate_metadata` (sha256 of the header;
+/// the id is never read by the code under test).
+pub fn noop_header(_h: &mut fuel_core_types::blockchain::header::BlockHeaderV1) {}
+
